@@ -87,3 +87,10 @@ package objecttemplate
 //@   sink SubResourceWriter.Update requires [C18] tplLive()
 //@   loop 1 invariant tplLive() == loopentry(tplLive()) && statusSent() == old(statusSent())
 //@   ensures [C18] result1 == nil && tplLive() && !old(tplLive()) && !old(statusSent()) ==> statusSent()
+
+// The environment a template is rendered with is the one read in this pass: getEnvironment never answers without
+// having asked the environment sink in this very call (nothing is remembered between passes).
+//@ func package-operator.run/internal/controllers/objecttemplate.(*templateReconciler).getEnvironment
+//@   at GetEnvironment ghost envFetched() := true
+//@   ensures [C18] result1 == nil && !old(envFetched()) ==> envFetched()
+//@   ensures missingOpt() == old(missingOpt()) && sourcesOK() == old(sourcesOK())
